@@ -5,6 +5,7 @@ import ExecModel.Props.C16
 import ExecModel.Props.C15
 import ExecModel.Props.C17
 import ExecModel.Lts.SysExplore
+import ExecModel.Args
 /-!
   `modeld` — line protocol driver: one JSON object per line in, one JSON value per line out.
   Every request carries `"op"`.  Anything not understood yields `{"error": "bad-op"}`; nothing is
@@ -310,9 +311,57 @@ def sysOps (op : String) (j : Json) : Except String (Option Json) := do
     pure (some (go (Sys.init c.cfg c.script) 0 labels))
   | _ => pure none
 
+/-! ### Args: the two traversals of the dependency resolver -/
+
+partial def parseArg (j : Json) : Except String (Args.Arg Int) := do
+  match j.getObjVal? "v" with
+  | .ok v => pure (.val (← v.getInt?))
+  | .error _ =>
+  match j.getObjVal? "f" with
+  | .ok v => pure (.fut (← v.getNat?))
+  | .error _ =>
+  match j.getObjVal? "l" with
+  | .ok (Json.arr xs) => pure (.list (← xs.toList.mapM parseArg))
+  | .ok _ => throw "l: expected array"
+  | .error _ =>
+  match j.getObjVal? "t" with
+  | .ok (Json.arr xs) => pure (.tuple (← xs.toList.mapM parseArg))
+  | .ok _ => throw "t: expected array"
+  | .error _ =>
+  match j.getObjVal? "d" with
+  | .ok (Json.arr xs) => do
+    let kvs ← xs.toList.mapM (fun e => match e with
+      | Json.arr #[Json.str k, v] => do pure (k, ← parseArg v)
+      | _ => throw "d: expected [key, tree] pairs")
+    pure (.dict kvs)
+  | _ => throw "unknown argument tree"
+
+partial def jArg : Args.Arg Int → Json
+  | .val v => Json.mkObj [("v", toJson v)]
+  | .fut j => Json.mkObj [("f", toJson j)]
+  | .list xs => Json.mkObj [("l", Json.arr (xs.map jArg).toArray)]
+  | .tuple xs => Json.mkObj [("t", Json.arr (xs.map jArg).toArray)]
+  | .dict kvs => Json.mkObj [("d", Json.arr (kvs.map (fun (k, a) => Json.arr #[Json.str k, jArg a])).toArray)]
+
+def argsOps (op : String) (j : Json) : Except String (Option Json) := do
+  match op with
+  | "args_traverse" =>
+    let args ← (← j.getObjValAs? (Array Json) "args").toList.mapM parseArg
+    let kw ← (← j.getObjValAs? (Array Json) "kwargs").toList.mapM (fun e => match e with
+      | Json.arr #[Json.str k, v] => do pure (k, ← parseArg v)
+      | _ => throw "kwargs: expected [key, tree] pairs")
+    let done := (← j.getObjValAs? (Array Bool) "done").toList
+    let vals := (← j.getObjValAs? (Array Int) "vals").toList
+    let c : Args.Call Int := { args := args, kwargs := kw }
+    let c' := c.subst (fun k => vals.getD k 0)
+    pure (some (Json.mkObj [("futures", toJson c.futures), ("ready", Json.bool (c.ready (fun k => done.getD k false))),
+      ("subst", Json.mkObj [("args", Json.arr (c'.args.map jArg).toArray),
+        ("kwargs", Json.arr (c'.kwargs.map (fun (k, a) => Json.arr #[Json.str k, jArg a])).toArray)])]))
+  | _ => pure none
+
 end H
 
-def handlers : List (String → Json → Except String (Option Json)) := [H.cmdOps, H.presetOps, H.wireOps, H.sysOps]
+def handlers : List (String → Json → Except String (Option Json)) := [H.cmdOps, H.presetOps, H.wireOps, H.sysOps, H.argsOps]
 
 def handle (line : String) : Json :=
   match Json.parse line with
